@@ -389,6 +389,14 @@ class LineSched:
         self.permille = permille
         self.focus = focus
         self.focus_hits = 0
+        # dynamic shared-object detection: objects whose methods have been entered by more than one caller thread
+        self.obj_threads: dict = {}
+        self.obj_jobs: dict = {}
+        self.job_no = 0
+        self.warming = False
+        self.obj_keep: dict = {}
+        self.code_lines: dict = {}
+        self.shared_obj_hits = 0
         self.prefix = prefix
         self.threads: list = []
         self.main = threading.Semaphore(0)
@@ -398,10 +406,77 @@ class LineSched:
         self.max_switches = max_switches
         self.errors: list = []
 
+    _MUTATORS = frozenset({"append", "add", "update", "pop", "clear", "extend", "insert", "remove", "setdefault", "popitem", "discard",
+                           "sort", "reverse", "appendleft", "popleft"})
+
+    def _self_store_lines(self, code):
+        """Lines of this code object that write through ``self`` (self.x = ..., self.x.append(...), self.x[k] = ...)."""
+        got = self.code_lines.get(code)
+        if got is None:
+            import dis
+
+            lines, line, has_self, marks = set(), None, False, False
+            for ins in dis.get_instructions(code):
+                if ins.starts_line is not None:
+                    if line is not None and has_self and marks:
+                        lines.add(line)
+                    line, has_self, marks = ins.starts_line, False, False
+                if ins.opname in ("LOAD_FAST", "LOAD_FAST_CHECK") and ins.argval == "self":
+                    has_self = True
+                elif ins.opname in ("STORE_ATTR", "STORE_SUBSCR", "DELETE_SUBSCR", "DELETE_ATTR"):
+                    marks = True
+                elif ins.opname in ("LOAD_ATTR", "LOAD_METHOD") and ins.argval in self._MUTATORS:
+                    marks = True
+            if line is not None and has_self and marks:
+                lines.add(line)
+            got = self.code_lines[code] = frozenset(lines)
+        return got
+
     def _trace(self, frame, event, arg):
-        if frame.f_code.co_filename.startswith(self.prefix):
+        code = frame.f_code
+        if not code.co_filename.startswith(self.prefix):
+            return None
+        if self.focus is None or code.co_argcount == 0 or code.co_varnames[0] != "self":
             return self._line
-        return None
+        store_lines = self._self_store_lines(code)
+        if not store_lines:
+            return self._line
+        try:
+            obj = frame.f_locals["self"]
+        except KeyError:
+            return self._line
+        oid = id(obj)
+        users = self.obj_threads.get(oid)
+        if users is None:
+            if len(self.obj_keep) < 200000:
+                self.obj_keep[oid] = obj  # keep it alive: an id must not be reused by another object
+                users = self.obj_threads[oid] = set()
+                self.obj_jobs[oid] = set()
+            else:
+                return self._line
+        users.add(self.cur["id"] if self.cur else -1)
+        jobs = self.obj_jobs[oid]
+        jobs.add(self.cur["job"] if self.cur else 0)
+        sched = self
+
+        def line(frame, event, arg):
+            if event == "line":
+                sched.line_events += 1
+                p = sched.permille
+                ln = frame.f_lineno
+                if (frame.f_code.co_filename, ln) in sched.focus:
+                    sched.focus_hits += 1
+                    p = 500
+                elif ln in store_lines and (len(users) >= 2 or len(jobs) >= 2) and not sched.warming:
+                    # a write through `self` on an object that several callers use, or that outlives the call that made it
+                    # a write through `self` on an object that several callers are using
+                    sched.shared_obj_hits += 1
+                    p = 500
+                if sched.switches < sched.max_switches and sched.tape.flag(p, "thr.sw"):
+                    sched._switch()
+            return line
+
+        return line
 
     def _line(self, frame, event, arg):
         if event == "line":
@@ -428,6 +503,23 @@ class LineSched:
             return
         self.cur = me
 
+    def warmup(self, jobs: list):
+        """Serve the calls once, sequentially, under the tracer: objects that survive a call (caches, shared instances) become
+        known, so that the concurrent phase can pre-empt exactly where callers write through them."""
+        self.warming = True
+        t = {"id": -1, "job": 0, "sem": None, "done": False}
+        self.cur = t
+        sys.settrace(self._trace)
+        try:
+            for job in jobs:
+                self.job_no += 1
+                t["job"] = self.job_no
+                job()
+        finally:
+            sys.settrace(None)
+            self.cur = None
+            self.warming = False
+
     def _body(self, t):
         if not t["sem"].acquire(timeout=120):
             return
@@ -435,6 +527,8 @@ class LineSched:
         sys.settrace(self._trace)
         try:
             for job in t["jobs"]:
+                self.job_no += 1
+                t["job"] = self.job_no
                 job()
         except BaseException as e:  # noqa: BLE001
             self.errors.append(f"{type(e).__name__}: {e}")
@@ -451,7 +545,7 @@ class LineSched:
 
     def run(self, joblists: list):
         for i, jobs in enumerate(joblists):
-            t = {"id": i, "jobs": jobs, "sem": threading.Semaphore(0), "done": False}
+            t = {"id": i, "jobs": jobs, "job": 0, "sem": threading.Semaphore(0), "done": False}
             t["thread"] = threading.Thread(target=self._body, args=(t,), daemon=True, name=f"caller-{i}")
             self.threads.append(t)
         for t in self.threads:
@@ -621,8 +715,12 @@ def run_variation_child(var: dict, calls_by_id: dict, tape_values=None) -> dict:
             lists[i % k].append(mk(c, p))
         sched = LineSched(tape, var.get("preempt_permille", 20), os.path.realpath(REPO_SRC),
                           focus=compute_shared_lines() if var.get("policy") == "focus" else None)
+        if var.get("policy") == "focus" and var.get("warmup", True):
+            # a long-lived server has served such calls before: do so once, sequentially (results discarded)
+            sched.warmup([mk(dict(c, id=800000 + c["id"]), False) for c, p in pj])
         sched.run([l for l in lists if l])
-        meta.update(line_events=sched.line_events, switches=sched.switches, focus_hits=sched.focus_hits)
+        meta.update(line_events=sched.line_events, switches=sched.switches, focus_hits=sched.focus_hits,
+                    shared_obj_hits=sched.shared_obj_hits)
     meta["clock_reads"] = clock.reads
     meta["tape_len"] = len(tape.values)
     out["_meta"] = meta
@@ -688,7 +786,7 @@ def run_var_case(case: dict, stats: Stats | None = None) -> dict:
             stats.inc("nontrivial_evaluations", len(var["probes"]))
         stats.distinct("var_shapes", repr((tuple(d), len(var["history"]), var.get("threads"), var.get("preempt_permille"))))
         stats.inc("history_calls_served", len(var["history"]) + (len(NASTY) if var.get("nasty_history") else 0))
-        for k in ("loop_steps", "loop_choices", "line_events", "switches", "clock_reads", "focus_hits"):
+        for k in ("loop_steps", "loop_choices", "line_events", "switches", "clock_reads", "focus_hits", "shared_obj_hits"):
             if k in meta:
                 stats.inc(k, int(meta[k]))
         if "virtual_seconds" in meta:
@@ -933,7 +1031,7 @@ def main(tier: str, seed: int, args) -> int:
             "asyncio_loop_steps": c.get("loop_steps", 0), "asyncio_schedule_choices": c.get("loop_choices", 0),
             "virtual_seconds_advanced": c.get("virtual_seconds", 0),
             "thread_line_events": c.get("line_events", 0), "thread_preemptions": c.get("switches", 0),
-            "thread_shared_state_line_hits": c.get("focus_hits", 0), "shared_state_lines_in_package": len(compute_shared_lines()),
+            "thread_shared_state_line_hits": c.get("focus_hits", 0), "thread_writes_through_shared_objects": c.get("shared_obj_hits", 0), "shared_state_lines_in_package": len(compute_shared_lines()),
             "simulated_clock_reads": c.get("clock_reads", 0),
             "apis": dict(sorted(stats.groups.get("apis", {}).items())),
             "fault_counts_fired": {"note": "no fault is part of this property; the injected 'faults' are configuration/schedule/clock variations",
